@@ -34,3 +34,28 @@ Lemma session_equiv_broken_refuted_lemma :
 Proof.
   exists witness_history, 100, witness_input, 10, (VNum 2). vm_compute. auto.
 Qed.
+
+(* eval_guarded without the unlock on the error path: a lock survives an abandoned
+   eval_record_spine, and the next eval_record_spine returns unevaluated leaves. *)
+Definition spine_record : tm :=
+  Rec [("a", Op2 OAdd (Num 1) (Num 1));
+       ("b", Rec [("c", Op2 OAdd (Var "a") (Var "a")); ("d", Lam "p" (Var "p"))])].
+
+Definition spine_history : list input := [IDef "r" spine_record; ISpine 8 (Var "r")].
+
+Example spine_ok :
+  count_locked (sheap (fst (sess_run empty_session spine_history))) = 0 /\
+  snd (sess_step (fst (sess_run empty_session spine_history)) (ISpine 1000 (Var "r")))
+  = OData (DRec [("a", DNum 2); ("b", DRec [("c", DNum 4); ("d", DFun)])]) /\
+  snd (sess_step empty_session (ISpine 1000 (chain (defs_of spine_history) (Var "r"))))
+  = OData (DRec [("a", DNum 2); ("b", DRec [("c", DNum 4); ("d", DFun)])]).
+Proof. vm_compute. auto. Qed.
+
+Lemma spine_nounlock_refuted_lemma :
+  exists h k e,
+    count_locked (sheap (fst (sess_run_nounlock empty_session h))) <> 0 /\
+    snd (sess_step_nounlock (fst (sess_run_nounlock empty_session h)) (ISpine k e))
+    <> snd (sess_step_nounlock empty_session (ISpine k (chain (defs_of h) e))).
+Proof.
+  exists spine_history, 1000, (Var "r"). vm_compute. split; discriminate.
+Qed.
